@@ -183,6 +183,8 @@ pub fn gen_single(rng: &mut Rng, max_stmts: usize, allow_ext: bool) -> Vec<GStmt
     let mut base = *rng.pick(&[0x0000u32, 0x0200, 0x2FF0, 0x3000, 0x3000, 0x4000, 0x8000, 0xC000, 0xF000]);
     let mut origins = vec![];
     for _ in 0..3 { if base < 0xFA00 { origins.push(base); } base += 0x400 + rng.below(0x800) as u32; }
+    // blocks need not appear in address order in the source
+    for i in (1..origins.len()).rev() { let j = rng.below(i as u64 + 1) as usize; origins.swap(i, j); }
     if rng.chance(1, 6) { // a block ending exactly at xFE00
         let mut f = gen_file(rng, &FileCfg { origins: vec![0xFD00], names, externals, max_stmts: max_stmts.min(12), data_bias: 3 });
         let l = layout(&f); let end = l.blocks.iter().map(|b| b.0 + b.1).max().unwrap_or(0xFD00);
